@@ -334,6 +334,315 @@ fn blp_dxt(spec: &str) -> Result<Vec<u8>, String> {
     encode_blp(&blp).map_err(|e| format!("encode_blp: {e}"))
 }
 
+
+// ------------------------------------------------------------------------------------------
+// seeded variants (part 3): same shape, different values — two ids that differ only in the seed
+// give files of the same size with different content
+
+fn lcg(seed: u32) -> impl FnMut() -> u32 {
+    let mut s = (seed as u64).wrapping_mul(0x9E37_79B9_7F4A_7C15) ^ 0xD1B5_4A32_D192_ED03;
+    move || {
+        s = s.wrapping_mul(6364136223846793005).wrapping_add(1442695040888963407);
+        (s >> 33) as u32
+    }
+}
+
+fn parse_wh(s: &str) -> Result<(u32, u32), String> {
+    s.split_once('x').and_then(|(w, h)| Some((w.parse::<u32>().ok()?, h.parse::<u32>().ok()?))).ok_or_else(|| format!("bad size {s}"))
+}
+
+fn m2_version(name: &str) -> wow_m2::M2Version {
+    match name {
+        "vanilla" => wow_m2::M2Version::Vanilla,
+        "tbc" => wow_m2::M2Version::TBC,
+        "cata" => wow_m2::M2Version::Cataclysm,
+        "mop" => wow_m2::M2Version::MoP,
+        _ => wow_m2::M2Version::WotLK,
+    }
+}
+
+/// `<ver>:<n>:<seed>` — n vertices at seeded positions
+fn m2_seeded(spec: &str) -> Result<Vec<u8>, String> {
+    use wow_m2::M2Model;
+    let p: Vec<&str> = spec.split(':').collect();
+    if p.len() != 3 {
+        return Err(format!("bad m2s spec {spec}"));
+    }
+    let n: usize = p[1].parse().map_err(|_| "bad n")?;
+    let seed: u32 = p[2].parse().map_err(|_| "bad seed")?;
+    let bytes = m2_bytes_n(m2_version(p[0]), n.max(3));
+    let mut m = M2Model::parse(&mut Cursor::new(&bytes)).map_err(|e| format!("m2 parse: {e}"))?;
+    let mut r = lcg(seed);
+    for v in m.vertices.iter_mut() {
+        v.position.x = (r() % 2000) as f32 / 8.0 - 100.0;
+        v.position.y = (r() % 2000) as f32 / 8.0 - 100.0;
+        v.position.z = (r() % 2000) as f32 / 8.0;
+        v.tex_coords.x = (r() % 256) as f32 / 256.0;
+        v.tex_coords.y = (r() % 256) as f32 / 256.0;
+    }
+    let mut c = Cursor::new(Vec::new());
+    m.write(&mut c).map_err(|e| format!("m2 write: {e}"))?;
+    Ok(c.into_inner())
+}
+
+/// `<new|old>:<n>:<seed>` — n indices (a multiple of 3), seeded values
+fn skin_seeded(spec: &str) -> Result<Vec<u8>, String> {
+    use wow_m2::skin::{OldSkin, OldSkinHeader, Skin, SkinFile, SkinHeader};
+    let p: Vec<&str> = spec.split(':').collect();
+    if p.len() != 3 {
+        return Err(format!("bad skins spec {spec}"));
+    }
+    let n: usize = (p[1].parse::<usize>().map_err(|_| "bad n")?.max(3) / 3) * 3;
+    let seed: u32 = p[2].parse().map_err(|_| "bad seed")?;
+    let mut r = lcg(seed);
+    let indices: Vec<u16> = (0..n).map(|_| (r() % 500) as u16).collect();
+    let triangles: Vec<u16> = (0..n).map(|_| (r() % n as u32) as u16).collect();
+    let bone_indices: Vec<u8> = (0..n * 4).map(|_| (r() % 4) as u8).collect();
+    let f = if p[0] == "new" {
+        let mut nh = SkinHeader::new(wow_m2::M2Version::Cataclysm);
+        nh.vertex_count = n as u32;
+        SkinFile::New(Skin { header: nh, indices, triangles, bone_indices, submeshes: vec![], batches: vec![] })
+    } else {
+        let mut h = OldSkinHeader::new();
+        h.bone_count_max = 1;
+        SkinFile::Old(OldSkin { header: h, indices, triangles, bone_indices, submeshes: vec![], batches: vec![] })
+    };
+    let mut c = Cursor::new(Vec::new());
+    f.write(&mut c).map_err(|e| format!("skin write: {e}"))?;
+    Ok(c.into_inner())
+}
+
+/// `<modern|legacy>:<sections>:<seed>`
+fn anim_seeded(spec: &str) -> Result<Vec<u8>, String> {
+    use wow_m2::anim::*;
+    let p: Vec<&str> = spec.split(':').collect();
+    if p.len() != 3 {
+        return Err(format!("bad anims spec {spec}"));
+    }
+    let n: u32 = p[1].parse::<u32>().map_err(|_| "bad n")?.clamp(1, 8);
+    let seed: u32 = p[2].parse().map_err(|_| "bad seed")?;
+    let mut r = lcg(seed);
+    let sections: Vec<AnimSection> = (0..n)
+        .map(|i| {
+            let start = r() % 1000;
+            AnimSection { header: AnimSectionHeader { magic: *b"AFID", id: 1 + i + (r() % 50) * 10, start, end: start + 1 + r() % 1000 }, bone_animations: vec![] }
+        })
+        .collect();
+    let f = if p[0] == "modern" {
+        AnimFile {
+            format: AnimFormat::Modern,
+            metadata: AnimMetadata::Modern {
+                header: AnimHeader { magic: ANIM_MAGIC, version: 1, id_count: n, unknown: 0, anim_entry_offset: 20 },
+                entries: sections.iter().map(|s| AnimEntry { id: s.header.id, offset: 0, size: 0 }).collect(),
+            },
+            sections,
+        }
+    } else {
+        AnimFile {
+            format: AnimFormat::Legacy,
+            metadata: AnimMetadata::Legacy { file_size: 0, animation_count: n, structure_hints: LegacyStructureHints { appears_valid: true, estimated_blocks: n, has_timestamps: false } },
+            sections,
+        }
+    };
+    let mut c = Cursor::new(Vec::new());
+    f.write(&mut c).map_err(|e| format!("anim write: {e}"))?;
+    Ok(c.into_inner())
+}
+
+/// `<w>x<h>:<rgb|rgba|luma|lumaa|rgb16|rgba16>:<seed>` — smooth gradient plus seeded noise
+fn png_seeded(spec: &str) -> Result<Vec<u8>, String> {
+    use image::{DynamicImage, ImageBuffer, ImageFormat};
+    let p: Vec<&str> = spec.split(':').collect();
+    if p.len() != 3 {
+        return Err(format!("bad pngs spec {spec}"));
+    }
+    let (w, h) = parse_wh(p[0])?;
+    let seed: u32 = p[2].parse().map_err(|_| "bad seed")?;
+    let mut r = lcg(seed);
+    let mut px = |x: u32, y: u32, k: u32| -> u8 { ((x * 255 / w.max(1)) as u8).wrapping_add((y * 7) as u8).wrapping_mul(k as u8 | 1).wrapping_add((r() % 24) as u8) };
+    let img = match p[1] {
+        "rgba" => DynamicImage::ImageRgba8(ImageBuffer::from_fn(w, h, |x, y| image::Rgba([px(x, y, 1), px(x, y, 3), px(x, y, 5), if (x / 2 + y / 2) % 3 == 0 { 255 } else { px(x, y, 7) }]))),
+        "luma" => DynamicImage::ImageLuma8(ImageBuffer::from_fn(w, h, |x, y| image::Luma([px(x, y, 1)]))),
+        "lumaa" => DynamicImage::ImageLumaA8(ImageBuffer::from_fn(w, h, |x, y| image::LumaA([px(x, y, 1), px(x, y, 3)]))),
+        "rgb16" => DynamicImage::ImageRgb16(ImageBuffer::from_fn(w, h, |x, y| image::Rgb([px(x, y, 1) as u16 * 257, px(x, y, 3) as u16 * 256 + 17, px(x, y, 5) as u16 * 255]))),
+        "rgba16" => DynamicImage::ImageRgba16(ImageBuffer::from_fn(w, h, |x, y| image::Rgba([px(x, y, 1) as u16 * 257, px(x, y, 3) as u16 * 256 + 17, px(x, y, 5) as u16 * 255, px(x, y, 7) as u16 * 257]))),
+        _ => DynamicImage::ImageRgb8(ImageBuffer::from_fn(w, h, |x, y| image::Rgb([px(x, y, 1), px(x, y, 3), px(x, y, 5)]))),
+    };
+    let mut c = Cursor::new(Vec::new());
+    img.write_to(&mut c, ImageFormat::Png).map_err(|e| format!("png: {e}"))?;
+    Ok(c.into_inner())
+}
+
+/// `<target>:<w>x<h>:<mips|nomips>:<seed>` — a texture in any encoding the library writes (BLP1/BLP2)
+fn blp_seeded(spec: &str) -> Result<Vec<u8>, String> {
+    use wow_blp::convert::{AlphaBits, Blp2Format, BlpOldFormat, BlpTarget, DxtAlgorithm, FilterType, image_to_blp};
+    use wow_blp::encode::encode_blp;
+    let p: Vec<&str> = spec.split(':').collect();
+    if p.len() != 4 {
+        return Err(format!("bad blps spec {spec}"));
+    }
+    let png = png_seeded(&format!("{}:rgba:{}", p[1], p[3]))?;
+    let img = image::load_from_memory(&png).map_err(|e| e.to_string())?;
+    let a = DxtAlgorithm::RangeFit;
+    let target = match p[0] {
+        "blp1-jpeg" => BlpTarget::Blp1(BlpOldFormat::Jpeg { has_alpha: false }),
+        "blp1-jpeg-a" => BlpTarget::Blp1(BlpOldFormat::Jpeg { has_alpha: true }),
+        "blp1-raw1-a0" => BlpTarget::Blp1(BlpOldFormat::Raw1 { alpha_bits: AlphaBits::NoAlpha }),
+        "blp1-raw1-a8" => BlpTarget::Blp1(BlpOldFormat::Raw1 { alpha_bits: AlphaBits::Bit8 }),
+        "blp2-raw1-a1" => BlpTarget::Blp2(Blp2Format::Raw1 { alpha_bits: AlphaBits::Bit1 }),
+        "blp2-raw1-a4" => BlpTarget::Blp2(Blp2Format::Raw1 { alpha_bits: AlphaBits::Bit4 }),
+        "blp2-raw3" => BlpTarget::Blp2(Blp2Format::Raw3),
+        "blp2-jpeg" => BlpTarget::Blp2(Blp2Format::Jpeg { has_alpha: false }),
+        "blp2-dxt1" => BlpTarget::Blp2(Blp2Format::Dxt1 { has_alpha: false, compress_algorithm: a }),
+        "blp2-dxt1-a" => BlpTarget::Blp2(Blp2Format::Dxt1 { has_alpha: true, compress_algorithm: a }),
+        "blp2-dxt3" => BlpTarget::Blp2(Blp2Format::Dxt3 { has_alpha: true, compress_algorithm: a }),
+        "blp2-dxt5" => BlpTarget::Blp2(Blp2Format::Dxt5 { has_alpha: true, compress_algorithm: a }),
+        t => return Err(format!("unknown blp target {t}")),
+    };
+    let blp = guard("image_to_blp", || image_to_blp(img, p[2] == "mips", target, FilterType::Nearest)).map_err(|f| format!("image_to_blp panicked: {}", f.message))?.map_err(|e| format!("image_to_blp: {e}"))?;
+    encode_blp(&blp).map_err(|e| format!("encode_blp: {e}"))
+}
+
+/// `<classic|tbc|wotlk|cata|mop>:<terrain|wmo>:<seed>`
+fn wdt_seeded(spec: &str) -> Result<Vec<u8>, String> {
+    use wow_wdt::chunks::{ModfChunk, ModfEntry, MphdFlags, MwmoChunk};
+    use wow_wdt::version::WowVersion;
+    use wow_wdt::{WdtFile, WdtWriter};
+    let p: Vec<&str> = spec.split(':').collect();
+    if p.len() != 3 {
+        return Err(format!("bad wdts spec {spec}"));
+    }
+    let v = WowVersion::from_expansion_name(p[0]).map_err(|e| e.to_string())?;
+    let seed: u32 = p[2].parse().map_err(|_| "bad seed")?;
+    let mut r = lcg(seed);
+    let mut w = WdtFile::new(v);
+    if p[1] == "wmo" {
+        w.mphd.flags |= MphdFlags::WDT_USES_GLOBAL_MAP_OBJ;
+        let mut mwmo = MwmoChunk::new();
+        mwmo.add_filename(format!("world/wmo/gen{}.wmo", r() % 90 + 10));
+        w.mwmo = Some(mwmo);
+        let mut modf = ModfChunk::new();
+        modf.add_entry(ModfEntry {
+            id: 0,
+            unique_id: r() % 1000,
+            position: [(r() % 1000) as f32, (r() % 1000) as f32, (r() % 1000) as f32],
+            rotation: [0.0, (r() % 360) as f32, 0.0],
+            lower_bounds: [0.0; 3],
+            upper_bounds: [(r() % 50) as f32; 3],
+            flags: 0,
+            doodad_set: (r() % 3) as u16,
+            name_set: 0,
+            scale: 1024,
+        });
+        w.modf = Some(modf);
+    } else {
+        if v.has_terrain_mwmo() {
+            w.mwmo = Some(MwmoChunk::new());
+        }
+        let n = 1 + r() % 12;
+        for _ in 0..n {
+            let (x, y) = ((r() % 64) as usize, (r() % 64) as usize);
+            let t = w.main.get_mut(x, y).ok_or("tile")?;
+            t.set_has_adt(true);
+            t.area_id = r() % 5000;
+        }
+    }
+    let mut buf = Vec::new();
+    WdtWriter::new(&mut buf).write(&w).map_err(|e| format!("wdt write: {e}"))?;
+    Ok(buf)
+}
+
+/// `<vanilla|wotlk|cata|mop|wod|legion|bfa>:<seed>`
+fn wdl_seeded(spec: &str) -> Result<Vec<u8>, String> {
+    use wow_wdl::parser::WdlParser;
+    use wow_wdl::types::{HeightMapTile, HolesData, WdlFile};
+    use wow_wdl::version::WdlVersion as V;
+    let (vn, seed) = spec.split_once(':').ok_or("bad wdls spec")?;
+    let seed: u32 = seed.parse().map_err(|_| "bad seed")?;
+    let v = match vn {
+        "vanilla" => V::Vanilla,
+        "cata" => V::Cataclysm,
+        "mop" => V::Mop,
+        "wod" => V::Wod,
+        "legion" => V::Legion,
+        "bfa" => V::Bfa,
+        _ => V::Wotlk,
+    };
+    let mut r = lcg(seed);
+    let mut f = WdlFile::with_version(v);
+    let n = 1 + r() % 6;
+    for _ in 0..n {
+        let key = (r() % 64, r() % 64);
+        let mut t = HeightMapTile::new();
+        for h in t.outer_values.iter_mut().chain(t.inner_values.iter_mut()) {
+            *h = (r() % 4000) as i16 - 2000;
+        }
+        f.heightmap_tiles.insert(key, t);
+        if v.has_maho_chunk() {
+            let mut hd = HolesData::new();
+            hd.hole_masks[(r() % 16) as usize] = (r() & 0xFFFF) as u16;
+            f.holes_data.insert(key, hd);
+        }
+    }
+    let mut c = Cursor::new(Vec::new());
+    WdlParser::with_version(v).write(&mut c, &f).map_err(|e| format!("wdl write: {e}"))?;
+    Ok(c.into_inner())
+}
+
+/// `<vanilla-early|vanilla-late|tbc|wotlk|cata|mop>:<seed>` — seeded texture / model / wmo name lists
+fn adt_seeded(spec: &str) -> Result<Vec<u8>, String> {
+    use wow_adt::{AdtBuilder, AdtVersion};
+    let (vn, seed) = spec.split_once(':').ok_or("bad adts spec")?;
+    let seed: u32 = seed.parse().map_err(|_| "bad seed")?;
+    let v = match vn {
+        "vanilla-early" => AdtVersion::VanillaEarly,
+        "vanilla-late" => AdtVersion::VanillaLate,
+        "tbc" => AdtVersion::TBC,
+        "cata" => AdtVersion::Cataclysm,
+        "mop" => AdtVersion::MoP,
+        _ => AdtVersion::WotLK,
+    };
+    let mut r = lcg(seed);
+    let mut b = AdtBuilder::new().with_version(v);
+    for i in 0..(1 + r() % 4) {
+        b = b.add_texture(format!("tileset/gen/tex{:03}_{i}.blp", r() % 1000));
+    }
+    for i in 0..(r() % 3) {
+        b = b.add_model(format!("world/gen/model{:03}_{i}.m2", r() % 1000));
+    }
+    for i in 0..(r() % 2) {
+        b = b.add_wmo(format!("world/wmo/gen/obj{:03}_{i}.wmo", r() % 1000));
+    }
+    b.build().map_err(|e| format!("adt build: {e}"))?.to_bytes().map_err(|e| format!("adt bytes: {e}"))
+}
+
+/// `<classic|tbc|wotlk|cata|mop>:<seed>` — seeded group / texture / doodad-set lists
+fn wmo_seeded(spec: &str) -> Result<Vec<u8>, String> {
+    use wow_wmo::types::{BoundingBox, Vec3};
+    use wow_wmo::wmo_group_types::WmoGroupFlags;
+    use wow_wmo::wmo_types::WmoGroupInfo;
+    use wow_wmo::{WmoParser, WmoVersion, WmoWriter};
+    let (vn, seed) = spec.split_once(':').ok_or("bad wmos spec")?;
+    let seed: u32 = seed.parse().map_err(|_| "bad seed")?;
+    let v = WmoVersion::from_expansion_name(vn).ok_or("bad wmo version")?;
+    let base = wmo_root_bytes(v);
+    let mut root = WmoParser::new().parse_root(&mut Cursor::new(&base)).map_err(|e| format!("wmo parse: {e}"))?;
+    let mut r = lcg(seed);
+    let n = 1 + r() % 4;
+    root.groups.clear();
+    for i in 0..n {
+        let lo = Vec3 { x: (r() % 100) as f32, y: (r() % 100) as f32, z: (r() % 100) as f32 };
+        let hi = Vec3 { x: lo.x + 1.0 + (r() % 50) as f32, y: lo.y + 1.0 + (r() % 50) as f32, z: lo.z + 1.0 + (r() % 50) as f32 };
+        root.groups.push(WmoGroupInfo { flags: WmoGroupFlags::empty(), bounding_box: BoundingBox { min: lo, max: hi }, name: format!("g{i}") });
+    }
+    root.header.n_groups = n;
+    root.header.ambient_color.r = (r() % 256) as u8;
+    root.header.ambient_color.g = (r() % 256) as u8;
+    let mut c = Cursor::new(Vec::new());
+    WmoWriter::new().write_root(&mut c, &root, v).map_err(|e| format!("wmo write: {e}"))?;
+    Ok(c.into_inner())
+}
+
 /// small library-built archives used as valid MPQ inputs of part 2
 pub fn mpq_spec(id: &str) -> Option<ArchiveSpec> {
     let (version, listfile, compress_tables) = match id {
@@ -414,6 +723,15 @@ fn build_uncached(id: &str) -> Result<Vec<u8>, String> {
             "rgb16" => png_bytes(16, 16, false),
             _ => png_bytes(4, 4, false),
         }),
+        "m2s" => m2_seeded(rest),
+        "skins" => skin_seeded(rest),
+        "anims" => anim_seeded(rest),
+        "pngs" => png_seeded(rest),
+        "blps" => blp_seeded(rest),
+        "wdts" => wdt_seeded(rest),
+        "wdls" => wdl_seeded(rest),
+        "adts" => adt_seeded(rest),
+        "wmos" => wmo_seeded(rest),
         "m2" if rest == "no-vertices" => Ok(m2_bytes_n(wow_m2::M2Version::WotLK, 0)),
         "m2" => Ok(m2_bytes(match rest {
             "vanilla" => wow_m2::M2Version::Vanilla,
